@@ -190,7 +190,6 @@ theorem fractNonzero_iff (s : Bool) (m : Nat) (e : Int) :
     · intro h; exact ⟨by omega, h⟩
     · intro h; exact h.2
 
-/-- on an integral double, `truncInt` is its exact value -/
 theorem toI64_fin (s : Bool) (m : Nat) (e : Int) :
     toI64 (fin s m e) = if truncInt s m e < i64Min then i64Min
       else if truncInt s m e > i64Max then i64Max else truncInt s m e := rfl
@@ -227,8 +226,6 @@ theorem intCast_dyadic (t : Int) : (t : Dyadic) = Dyadic.ofIntWithPrec t (-0) :=
 theorem intCast_dyadic_inj {a b : Int} (h : (a : Dyadic) = (b : Dyadic)) : a = b := by
   rw [intCast_dyadic, intCast_dyadic] at h
   exact (ofIntWithPrec_inj a b (-0)).1 h
-
-/-- exact condition: the value survives `from_float` iff the double is an integer inside the
 
 end F64
 
